@@ -24,6 +24,7 @@ def setup_side(env, disk_files=None):
     se = get_seams()
     disk = S.SimDisk(disk_files)
     se.install(clock_spec=env['clock'], hash_spec=env['hash'], disk=disk)
+    S._TAP.install()        # one stdout/stderr replacement for the life of this process
     S.hold_junk(*env['junk'])
     if env.get('rng_seed') is not None:
         # forked children inherit the template's random state; real processes
@@ -176,7 +177,11 @@ def build_direct(spec, f):
     """Build through constructors, as the unit tests do; can share the
     exported `ideal_ground` between models."""
     import mininec.mininec as mm
-    wires = [mm.Wire(*w) for w in spec['wires']]
+    if spec.get('gauge'):
+        # AWG table wires: (n, x1, y1, z1, x2, y2, z2, gauge)
+        wires = [mm.Gauge_Wire(*(list(w[:7]) + [spec['gauge']])) for w in spec['wires']]
+    else:
+        wires = [mm.Wire(*w) for w in spec['wires']]
     media = None
     if spec.get('ground') == 'shared_ideal':
         media = [mm.ideal_ground]
@@ -213,14 +218,28 @@ def build_direct(spec, f):
             else:
                 arr = list(tr[2])
             getattr(geo, tr[0])(tr[1], arr, tr[3])
-        m = mm.Mininec(f, geo, media=media)
+        m = mm.Mininec(f, geo, media=media, t=bool(spec.get('timing')))
         for key, (arr, orig) in _SHARED_ARGS.items():
             if arr.tobytes() != orig and key not in ARG_DAMAGE:
                 ARG_DAMAGE.append(key)
     else:
-        m = mm.Mininec(f, wires, media=media)
-    for (v, p) in spec['sources']:
-        m.register_source(mm.Excitation(cvolt=complex(v)), p)
+        m = mm.Mininec(f, wires, media=media, t=bool(spec.get('timing')))
+    for src in spec['sources']:
+        if src[0] == 'mp':
+            # magnitude and phase (degrees) instead of a complex voltage
+            m.register_source(mm.Excitation(src[1], src[2]), src[3])
+        else:
+            m.register_source(mm.Excitation(cvolt=complex(src[0])), src[1])
+    for ld in spec.get('xloads', []):
+        if ld[0] == 'rlc':
+            m.register_load(mm.Series_RLC_Load(ld[1], ld[2], ld[3]), ld[4])
+        elif ld[0] == 'trap':
+            m.register_load(mm.Trap_Load(ld[1], ld[2], ld[3]), ld[4])
+        elif ld[0] == 'laplace':
+            m.register_load(mm.Laplace_Load(a=list(ld[1]), b=list(ld[2])), ld[3])
+        elif ld[0] == 'insul':
+            w = wires[ld[3]]
+            m.register_load(mm.Insulation_Load(w, w.r * ld[1], ld[2]), None, w.tag)
     for (z, p) in spec.get('loads', []):
         m.register_load(mm.Impedance_Load(complex(z)), p)
     for (sig, wi) in spec.get('skin', []):
